@@ -1,3 +1,4 @@
 import KcpVerif.Generated
 import KcpVerif.Model.Ring
+import KcpVerif.Model.Cfb
 import KcpVerif.Props.C20
